@@ -243,9 +243,15 @@ def doc_applies(program, built, block, f):
     recorded on the block; None when the factor is not one the program declares
     (weight desugaring replacements: always width-1 windows)."""
     fd = None
+    byid = {x["id"]: x for x in program["factors"]}
     for fid, obj in built.factors.items():
         if obj is f:
-            fd = {x["id"]: x for x in program["factors"]}[fid]
+            fd = byid[fid]
+    if fd is None and isinstance(f.name, str):
+        # weight desugaring rebuilds a derived factor that depends on a desugared factor: same name, same window
+        cands = [byid[fid] for fid in ir.design_fids(program, program["main"]) if byid[fid]["name"] == f.name]
+        if len(cands) == 1:
+            fd = cands[0]
     su = block.factor_to_sustain_count.get(f, 1)
     if fd is None or fd["kind"] != "derived":
         return lambda t: True
@@ -608,14 +614,16 @@ def run(ctx, res):
         runs.append((p, r))
         if r["status"] == "built":
             lines.append("(layout %s)" % r["wire"])
+            lines.append("(wf %s)" % r["wire"])
             lines.append("(decodes %s (%s))" % (r["wire"], " ".join("(" + " ".join(str(v) for v in a) + ")"
                                                                      for _, a, _ in r["sols"])))
     outs = ctx.model(lines) if lines else []
     oi = 0
     stats = {"rejected": 0, "built": 0, "harness-error": 0, "complex": 0, "sustain>1": 0, "complex+sustain": 0,
-             "same-name": 0, "exhaustive-onehot": 0, "solver-models": 0, "decode-errors": 0, "assignments": 0}
+             "same-name": 0, "wf_layout": 0, "keys_distinct": 0, "exhaustive-onehot": 0, "solver-models": 0, "decode-errors": 0, "assignments": 0}
     shapes = {}
     corr_bad = []
+    hyp_bad = []
     found = []
     for p, r in runs:
         shapes[r["tag"]] = shapes.get(r["tag"], 0) + 1
@@ -628,8 +636,20 @@ def run(ctx, res):
             continue
         block = r["block"]
         res.count(key, nontrivial=r["vps"] > 0)
-        lay, dec = outs[oi], outs[oi + 1]
-        oi += 2
+        lay, wfl, dec = outs[oi], outs[oi + 1], outs[oi + 2]
+        oi += 3
+        # hypotheses of the theorems on the flat record of this accepted design
+        names = [f.name for f in block.act_design]
+        real_distinct = len(set(names)) == len(names)
+        wf_ok = wfl.split(" ")[0] == "true"
+        keys_ok = wfl.split(" ")[-1] == "true"
+        stats["wf_layout"] += wf_ok
+        stats["keys_distinct"] += keys_ok
+        res.layer("hyp-keys-distinct", keys_ok == real_distinct)
+        if keys_ok != real_distinct:
+            corr_bad.append(("hyp-keys-distinct", p, {"model": wfl, "real_names_distinct": real_distinct}))
+        if not wf_ok:
+            hyp_bad.append((p, wfl))
         cplx = [f for f in block.act_design if f.has_complex_window]
         sus = [f for f in block.act_design if block.sustain_count(f) > 1]
         stats["complex"] += bool(cplx)
@@ -659,7 +679,13 @@ def run(ctx, res):
             res.count(None, nontrivial=False)
             if not ok:
                 corr_bad.append(("L6-decode-" + kind, p, {"assignment": a, "real": real, "model": mod}))
-        for sig, what, detail in search_program(ctx, p, r):
+        try:
+            bads = search_program(ctx, p, r)
+        except Exception as e:  # noqa
+            import traceback
+            bads = [("search:real-code-raises", "the real code raises %s: %s while the layout of an accepted design is inspected (%s)"
+                     % (type(e).__name__, str(e)[:150], traceback.format_exc().strip().split("\n")[-3].strip()[:150]), {})]
+        for sig, what, detail in bads:
             found.append((sig, what, detail, p))
         if r["tag"] in ("nest-complex", "repeat") and r["vps"] > 0:
             res.sample({"tag": r["tag"], "trials": r["T"], "variables_per_sample": r["vps"],
@@ -673,6 +699,12 @@ def run(ctx, res):
         seen.add(sig)
         res.violations.append(Violation(sig, what + "  program=" + json.dumps(p, sort_keys=True)[:900],
                                         {"program": p, "detail": detail, "sig": sig}))
+    if hyp_bad and not found:
+        p, wfl = hyp_bad[0]
+        res.violations.append(Violation(
+            "hyp:wf_layout", "the flat record of %d accepted designs does not satisfy wf_layout (hypothesis of the C14 theorems): "
+            "a factor of act_design without complex window that does not apply to every trial, or a factor listed twice"
+            % len(hyp_bad), {"program": p, "model": wfl, "theorems": ["C14_*"]}, failing_input=False))
     if corr_bad and not found:
         layer, p, d = corr_bad[0]
         res.violations.append(Violation(
